@@ -67,17 +67,17 @@ class error_997_visitor(error_visitor.error_visitor):
         icvn = seg.get_value('ISA12')
         isa_seg = pyx12.segment.Segment('ISA*00*          *00*          ',
                                         self.seg_term, self.ele_term, self.subele_term)
-        isa_seg.append(seg.get_value('ISA07'))
-        isa_seg.append(seg.get_value('ISA08'))
-        isa_seg.append(seg.get_value('ISA05'))
-        isa_seg.append(seg.get_value('ISA06'))
+        isa_seg.append(self._echo(seg.get_value('ISA07'), 2))
+        isa_seg.append(self._echo(seg.get_value('ISA08'), 15))
+        isa_seg.append(self._echo(seg.get_value('ISA05'), 2))
+        isa_seg.append(self._echo(seg.get_value('ISA06'), 15))
         isa_seg.append(time.strftime('%y%m%d'))  # Date
         isa_seg.append(time.strftime('%H%M'))  # Time
-        isa_seg.append(seg.get_value('ISA11'))
+        isa_seg.append(self._echo(seg.get_value('ISA11'), 1))
         isa_seg.append(icvn)
         isa_seg.append(self.isa_control_num)  # ISA Interchange Control Number
         isa_seg.append('0') # No need for TA1 response to 997
-        isa_seg.append(seg.get_value('ISA15'))
+        isa_seg.append(self._echo(seg.get_value('ISA15'), 1))
         isa_seg.append(self.subele_term)
         self._write(isa_seg)
         self.isa_seg = isa_seg
@@ -87,16 +87,16 @@ class error_997_visitor(error_visitor.error_visitor):
         seg = errh.cur_gs_node.seg_data
         gs_seg = pyx12.segment.Segment('GS', '~', '*', ':')
         gs_seg.append('FA')
-        gs_seg.append(seg.get_value('GS03').rstrip())
-        gs_seg.append(seg.get_value('GS02').rstrip())
+        gs_seg.append(self._echo(seg.get_value('GS03')).rstrip())
+        gs_seg.append(self._echo(seg.get_value('GS02')).rstrip())
         gs_seg.append(time.strftime('%Y%m%d'))
         gs_seg.append(time.strftime('%H%M%S'))
-        gs_seg.append(seg.get_value('GS06'))
-        gs_seg.append(seg.get_value('GS07'))
+        gs_seg.append(self._echo(seg.get_value('GS06')))
+        gs_seg.append(self._echo(seg.get_value('GS07')))
         gs_seg.append('004010')  # GS08 is the version/release code, not ISA12
         self._write(gs_seg)
         self.gs_seg = gs_seg
-        self.gs_id = seg.get_value('GS06')
+        self.gs_id = self._echo(seg.get_value('GS06'))
         #self.gs_997_count = 0
         self.st_loop_count = 0
         self.gs_loop_count += 1
@@ -161,9 +161,9 @@ class error_997_visitor(error_visitor.error_visitor):
             #seg = ['TA1', err_isa.isa_trn_set_id, err_isa.orig_date, \
             #    err_isa.orig_time]
             ta1_seg = pyx12.segment.Segment('TA1', '~', '*', ':')
-            ta1_seg.append(err_isa.isa_trn_set_id)
-            ta1_seg.append(err_isa.orig_date)
-            ta1_seg.append(err_isa.orig_time)
+            ta1_seg.append(self._echo(err_isa.isa_trn_set_id))
+            ta1_seg.append(self._echo(err_isa.orig_date))
+            ta1_seg.append(self._echo(err_isa.orig_time))
             err_codes = self.__get_isa_errors(err_isa)
             if err_codes:
                 err_cde = err_codes[0]
@@ -208,7 +208,7 @@ class error_997_visitor(error_visitor.error_visitor):
         #seg = ['AK1', err_gs.fic, err_gs.gs_control_num]
         #self._write(seg)
         self._write(pyx12.segment.Segment('AK1*%s*%s' %
-                                          (err_gs.fic, err_gs.gs_control_num), '~', '*', ':'))
+                                          (self._echo(err_gs.fic), self._echo(err_gs.gs_control_num)), '~', '*', ':'))
 
     def __get_gs_errors(self, err_gs):
         """
@@ -296,8 +296,8 @@ class error_997_visitor(error_visitor.error_visitor):
         @type err_st: L{error_handler.err_st}
         """
         seg_data = pyx12.segment.Segment('AK2', '~', '*', ':')
-        seg_data.append(err_st.trn_set_id)
-        seg_data.append(err_st.trn_set_control_num.strip())
+        seg_data.append(self._echo(err_st.trn_set_id))
+        seg_data.append(self._echo(err_st.trn_set_control_num).strip())
         self._write(seg_data)
 
     def __get_st_errors(self, err_st):
@@ -374,6 +374,20 @@ class error_997_visitor(error_visitor.error_visitor):
             seg_data = pyx12.segment.Segment(seg_str, '~', '*', ':')
             seg_data.set('AK304', '8')
             self._write(seg_data)
+
+    def _echo(self, value, width=None):
+        """
+        A value copied from the input, without this acknowledgement's own
+        delimiters (which would add or split elements or segments); fixed
+        width fields of the ISA keep their width
+        """
+        if value is None:
+            return value
+        terms = [self.seg_term, self.ele_term, self.subele_term, getattr(self, 'repetition_term', None)]
+        clean = ''.join([c for c in value if c not in terms])
+        if width is not None:
+            clean = clean.ljust(width)[:width]
+        return clean
 
     def _contains_delimiter(self, value):
         """
